@@ -11,10 +11,14 @@ RULE = ("random reduced-form indexed grammars (2-5 non-terminals, 1-2 indices, a
         "up to 8 permutations of the rule list (all 24/120 in the thorough tier) x optim in 0..8 and compared with the "
         "Lean marking model (verdict and, when empty, the complete marking table); non-emptiness is certified "
         "independently by an explicit derivation found by bounded search; remove_useless_rules() must keep the verdict "
-        "and is compared with the model; the intersection with a regular language must be non-empty when a derivable "
-        "word found by bounded enumeration is accepted. Non-trivial: >=4 rules of >=3 kinds.")
+        "and is compared with the model; the intersection with a regular language (incl. languages over symbols spelled like "
+        "non-terminals) is compared rule by rule, after remove_useless_rules, with the Lean model of the triple "
+        "construction (proved: non-empty exactly when a derivable word is accepted), must be non-empty when a "
+        "derivable word found by bounded enumeration is accepted and empty when the grammar's language is empty. Non-trivial: >=4 rules of >=3 kinds.")
 LEVEL = "proof"
-THEOREMS = ["Pfl.IG.derivable_sound",
+THEOREMS = ["Pfl.IG.inter_nonEmpty",
+            "Pfl.IG.derivable_iff_gen",
+            "Pfl.IG.derivable_sound",
             "Pfl.IG.marks_sound",
             "Pfl.IG.marks_complete",
             "Pfl.IG.isEmpty_iff",
